@@ -98,6 +98,7 @@ def check_case(case, ctx):
     import xdoctest
     style = case.get('style', 'auto')
     verbose = case.get('verbose', 0)
+    analysis = case.get('analysis', 'auto')      # names, selection and tallies do not depend on how the docstrings are obtained
     with sandbox.scratch('c10') as d:
         name, path, lines = _setup(case, d)
         trace = os.path.join(d, 'trace.txt')
@@ -121,7 +122,7 @@ def check_case(case, ctx):
             # ---- all
             try:
                 with sandbox.quiet():
-                    rs = xdoctest.doctest_module(path, command='all', argv=[], style=style, verbose=verbose)
+                    rs = xdoctest.doctest_module(path, command='all', argv=[], style=style, verbose=verbose, analysis=analysis)
             except BaseException as ex:   # noqa  (also pytest's outcome exceptions, which are not Exceptions)
                 if isinstance(ex, (KeyboardInterrupt, SystemExit, engine.Abort)):
                     raise
@@ -148,7 +149,7 @@ def check_case(case, ctx):
                 raise Violation('all:failed_list', "'all' lists failed {} expected {}\n{}".format(got_failed, exp['failed'], where))
             # ---- list
             with sandbox.quiet() as (out, err, wl):
-                xdoctest.doctest_module(path, command='list', argv=[], style=style, verbose=max(verbose, 1))
+                xdoctest.doctest_module(path, command='list', argv=[], style=style, verbose=max(verbose, 1), analysis=analysis)
             listed = out.getvalue()
             if _read_trace(trace):
                 raise Violation('list:executes', "'list' executed doctest code\n" + where)
@@ -164,10 +165,10 @@ def check_case(case, ctx):
                     n_lines, len(inv), listed[-1500:], where))
             # ---- named
             for x in case.get('named_all', True) and inv or []:
-                _check_named(xdoctest, path, trace, x, x['id'], style, verbose, where)
+                _check_named(xdoctest, path, trace, x, x['id'], style, verbose, where, analysis)
                 same = [y for y in inv if y['callname'] == x['callname']]
                 if len(same) == 1:
-                    _check_named(xdoctest, path, trace, x, x['callname'], style, verbose, where)
+                    _check_named(xdoctest, path, trace, x, x['callname'], style, verbose, where, analysis)
                 if ctx is not None:
                     ctx.count()
         finally:
@@ -178,10 +179,10 @@ def check_case(case, ctx):
             sandbox.purge_modules([name])
 
 
-def _check_named(xdoctest, path, trace, x, command, style, verbose, where):
+def _check_named(xdoctest, path, trace, x, command, style, verbose, where, analysis='auto'):
     try:
         with sandbox.quiet():
-            rs = xdoctest.doctest_module(path, command=command, argv=[], style=style, verbose=verbose)
+            rs = xdoctest.doctest_module(path, command=command, argv=[], style=style, verbose=verbose, analysis=analysis)
     except BaseException as ex:   # noqa
         if isinstance(ex, (KeyboardInterrupt, SystemExit, engine.Abort)):
             raise
@@ -274,6 +275,7 @@ def case_strategy(D, max_funcs):
     case = outcomes.gen_module(D, max_funcs=max_funcs)
     case['style'] = D.choice(STYLES)
     case['verbose'] = D.choice([0, 1, 2, 3])
+    case['analysis'] = D.choice(['auto', 'auto', 'auto', 'dynamic'])
     return case
 
 
